@@ -53,6 +53,7 @@ def check_nullness(cx, rep, funcs_pred, rule='read result may be None at a deref
 
 def check(repo, rep):
     cx = Ctx(repo)
+    rep.cx = cx
     mod = 'util'
     # ---------------------------------------------------------------- R1 nullness in the reader stack
     sites, opt = check_nullness(cx, rep, lambda f: f['mod'] == 'util')
@@ -222,6 +223,9 @@ def check(repo, rep):
         # read(): next(generator), StopIteration -> None
         rl = cx.leaves(mod, '_OverlapAudioReader.read')
         has_stop = any(any(e[0] == 'except' and term_name(e[1]).endswith('StopIteration') for e in l.effects) and l.outcome == 'return' and l.value == ('c', None) for l in rl)
+        # next(generator, None): the default is what an exhausted generator maps to
+        has_stop = has_stop or any(x[0] == 'call' and x[1] == ('b', 'next') and len(x[2]) == 2 and x[2][1] == ('c', None)
+                                   for l in rl for t_ in [l.value] + [e[1] for e in l.effects if e[0] == 'call'] if t_ is not None for x in walk(t_))
         rep.ob('overlap read(): exhausted generator maps to None', has_stop, W(cx.fn(mod, '_OverlapAudioReader.read')), '_OverlapAudioReader.read:StopIteration')
 
     # ---------------------------------------------------------------- R5 wrapper composition order in AudioReader.__init__
